@@ -90,7 +90,12 @@ KNOWN: dict[tuple[str, str, str], int] = {
     # every use of `.default` (any rendering of a default into code needs a model; branch structure of _get_field_default:
     #  array -> default_factory, anonymous object -> default_factory, named enum -> 17, str -> 8 for EVERY declared type,
     #  bool/int/float -> str(value) which is not text)
-    ("visit/model/dataclass_generator.py", "_get_field_default", "default-use: default_str = str(ps.default)"): 17,   # named enum: Name.MEMBER
+    ("visit/model/dataclass_generator.py", "_get_field_default", "default-use: return f'{ps.name}({json.dumps(ps.default, ensure_ascii=False)})'"): 17,   # named enum: Name(<value literal>)
+    ("visit/model/dataclass_generator.py", "_get_field_default", "escaper: return f'{ps.name}({json.dumps(ps.default, ensure_ascii=False)})'"): 17,
+    ("visit/model/dataclass_generator.py", "_get_field_default", "default-use: return f'{ps.name}({ps.default!r})'"): 0,   # non-string default of an enum (int): not text
+    ("visit/model/dataclass_generator.py", "_get_field_default", "escaper: return f'{ps.name}({ps.default!r})'"): 0,
+    ("visit/model/dataclass_generator.py", "_get_field_default", "{ps.name}({json.dumps(ps.default, ensure_ascii=False)})"): 17,
+    ("visit/model/dataclass_generator.py", "_get_field_default", "{ps.name}({ps.default!r})"): 0,
     ("visit/model/dataclass_generator.py", "_get_field_default", "default-use: escaped_inner_content = json.dumps(ps.default, ensure_ascii=False)[1:-1]"): 8,
     ("visit/model/dataclass_generator.py", "_get_field_default", "default-use: return str(ps.default)"): 0,   # under isinstance(bool) / isinstance((int, float)): not text
     ("visit/model/dataclass_generator.py", "generate", "default-use: synthetic_field_schema_for_default = IRSchema("): 0,   # array wrapper: copied, then default_factory=list
